@@ -399,6 +399,29 @@ def chkC04 (m : Mon) (r : StepRec) : Bool :=
       | .ct _, _ => true
       | _, _ => false)
 
+/-- C08's own callback clause ("… the buffer of the new flag is emptied first if it held anything (and the RT callback
+reports that flag)"): when a switch empties the buffer of the new flag while an RT callback is registered, exactly one
+RT event carrying that flag is reported by this call. It is one conjunct of `chkC04` (`chkC08cb_of_chkC04`). -/
+def chkC08cb (m : Mon) (r : StepRec) : Bool :=
+  match r.op.group? with
+  | none => true
+  | some g =>
+    !(m.cbs.getD Cb.rt.idx false) || !(switchDiscard m r.before g) ||
+      countKind r.evs (· == .rt (g.b / 16 % 2)) == 1
+
+/-- C08, "the very first flag after a reset empties nothing" read together with "a type-2 group whose block B has errors and
+whose flag differs from the last seen one is ignored": while no flag has been seen since the last reset there is no last
+seen flag to differ from, so a type-2 group is neither a switch nor a bit-flip candidate, and both RT buffers come out of
+the call exactly as the closed form `expectedText` says for an ordinary group. One instance of `chkCells`
+(`chkC08first_of_chkCells`). -/
+def chkC08first (cfg : Cfg) (m : Mon) (r : StepRec) : Bool :=
+  match r.op.group? with
+  | none => true
+  | some g =>
+    !(g.type = 2 && m.lastFlag == -1) ||
+      ((r.after.text 1).cells == expectedText cfg m r.before g 1 &&
+       (r.after.text 2).cells == expectedText cfg m r.before g 2)
+
 /-- the getter-visible data (everything except settings) -/
 def Obs.sameData (a b : Obs) : Bool :=
   a.sc == b.sc && a.ps == b.ps && a.rt0 == b.rt0 && a.rt1 == b.rt1 && a.ptyn == b.ptyn
@@ -506,7 +529,7 @@ def chkC16 (cfg : Cfg) (r : StepRec) : Bool :=
 /-- all per-call predicates, with the property each belongs to -/
 def allChecks (tb : Tabs) (m m' : Mon) (r : StepRec) : List (String × Bool) :=
   [("C01", chkC01 m' r), ("C02", chkC02 tb.cfg m r), ("C04", chkC04 m r && chkC04redeliver m r),
-   ("C06", chkC06 tb.cfg m r), ("C07", chkC07 m r), ("C08", chkC08 m r),
+   ("C06", chkC06 tb.cfg m r), ("C07", chkC07 m r), ("C08", chkC08 m r && chkC08cb m r && chkC08first tb.cfg m r),
    ("C09", chkC09 m' r), ("C10", chkC10 m' r), ("C11", chkC11 tb m' r), ("C12", chkC12 m r),
    ("C13", chkC13 r), ("C14", chkC14 r), ("C15", chkC15 m r), ("C16", chkC16 tb.cfg r),
    ("C17", chkC17 m' r)]
